@@ -218,8 +218,12 @@ def run_shard(spec) -> ShardResult:
                 super().__init__()
                 self.h = None
 
-            @initialize(s=small)
-            def init(self, s):
+            @initialize(s=small, pad=st.sampled_from([0, 0, 0, 0, 260, 300]))
+            def init(self, s, pad):
+                # pad: the structure sits behind a long unpaired 5' tail, so that its positions pass 256 (long RNAs)
+                if pad:
+                    s = (ssref.seq_for(pad, 3) + s[0], tuple((i + pad, j + pad) for i, j in s[1]))
+                    self.padded = True
                 self.h = History(s[0], list(s[1]))
 
             @rule(idx=st.integers(0, 7), method=st.sampled_from(METHODS))
@@ -257,6 +261,8 @@ def run_shard(spec) -> ShardResult:
                     labs += [f"steps={min(len(self.h.steps), 8)}"]
                     if len(self.h.objects) > 1:
                         labs.append("derived-objects")
+                    if getattr(self, "padded", False):
+                        labs.append("positions-beyond-256")
                     if getattr(self.h, "twins", 0):
                         labs.append("relettered-twin-object")
                     res.note_case(case, self.h.nontrivial, labs)
